@@ -754,3 +754,162 @@ func TestVerifC07MailboxRace(t *testing.T) {
 		}
 	}, c07RaceBody)
 }
+
+// ---- agents leaving while a bundle is being handed over (multiplexer fan-out) ----
+
+type c07MuxCase struct {
+	N       int   `json:"n"`       // children, all registered for the same endpoint
+	Slow    int   `json:"slow"`    // child that accepts its message only after the others have reacted
+	Leave   []int `json:"leave"`   // children that close their sender while the fan-out waits for the slow child
+	Bundles int   `json:"bundles"` // bundles delivered one after the other (children leave during the first)
+}
+
+// vfGatedMock accepts messages only while its gate is open.
+type vfGatedMock struct {
+	eid      bpv7.EndpointID
+	receiver chan Message
+	sender   chan Message
+	gate     chan struct{}
+	mu       sync.Mutex
+	got      []string
+	closed   bool
+}
+
+func newVfGatedMock(e string, gated bool) *vfGatedMock {
+	m := &vfGatedMock{eid: bpv7.MustNewEndpointID(e), receiver: make(chan Message), sender: make(chan Message), gate: make(chan struct{})}
+	if !gated {
+		close(m.gate)
+	}
+	go func() {
+		<-m.gate
+		for msg := range m.receiver {
+			if bm, ok := msg.(BundleMessage); ok {
+				m.mu.Lock()
+				m.got = append(m.got, c07Payload(&bm.Bundle))
+				m.mu.Unlock()
+			}
+		}
+		m.mu.Lock()
+		m.closed = true
+		m.mu.Unlock()
+	}()
+	return m
+}
+func (m *vfGatedMock) Endpoints() []bpv7.EndpointID { return []bpv7.EndpointID{m.eid} }
+func (m *vfGatedMock) MessageReceiver() chan Message { return m.receiver }
+func (m *vfGatedMock) MessageSender() chan Message   { return m.sender }
+func (m *vfGatedMock) count(p string) int {
+	m.mu.Lock()
+	defer m.mu.Unlock()
+	n := 0
+	for _, g := range m.got {
+		if g == p {
+			n++
+		}
+	}
+	return n
+}
+
+func TestVerifC07MuxLeave(t *testing.T) {
+	log.SetOutput(io.Discard)
+	u := vk.Unit{Property: "C07", Name: "c07.mux-leave", Quick: 150, Thorough: 6000,
+		Rule: "a real MuxAgent with 3..6 mock agents registered for one endpoint; a bundle is handed over while one child (any position) accepts its message only later, and meanwhile 1..3 other children (any positions) leave by closing their sender channel, as a disconnecting WebSocket/REST client does; then the slow child accepts, and 0..2 further bundles follow. Oracle: every agent that stayed registered receives every bundle exactly once, an agent that left receives each bundle at most once, nothing panics or blocks; non-trivial = a child positioned after the slow one leaves; distinct by case hash"}
+	vk.Check(t, u, func(t *rapid.T) c07MuxCase {
+		n := rapid.IntRange(3, 6).Draw(t, "n")
+		cs := c07MuxCase{N: n, Slow: rapid.IntRange(0, n-1).Draw(t, "slow"), Bundles: rapid.IntRange(1, 3).Draw(t, "bundles")}
+		perm := rapid.Permutation(func() []int {
+			var o []int
+			for i := 0; i < n; i++ {
+				if i != cs.Slow {
+					o = append(o, i)
+				}
+			}
+			return o
+		}()).Draw(t, "perm")
+		k := rapid.IntRange(1, 3).Draw(t, "k")
+		if k > len(perm) {
+			k = len(perm)
+		}
+		cs.Leave = perm[:k]
+		return cs
+	}, func(c *vk.Ctx, cs c07MuxCase) {
+		mux := NewMuxAgent()
+		var kids []*vfGatedMock
+		for i := 0; i < cs.N; i++ {
+			k := newVfGatedMock("dtn://node/shared", i == cs.Slow)
+			kids = append(kids, k)
+			mux.Register(k)
+		}
+		leaves := map[int]bool{}
+		after := false
+		for _, l := range cs.Leave {
+			leaves[l] = true
+			if l > cs.Slow {
+				after = true
+			}
+		}
+		if after {
+			c.NonTrivial()
+		}
+		crashed := make(chan string, 1)
+		send := func(p string, seq uint64) bool {
+			done := make(chan struct{})
+			go func() {
+				defer close(done)
+				mux.MessageReceiver() <- BundleMessage{c07Bundle("dtn://node/shared", p, seq)}
+			}()
+			select {
+			case <-done:
+				return true
+			case <-time.After(10 * time.Second):
+				return false
+			}
+		}
+		_ = crashed
+		if !send("mux-0", 1) {
+			c.Failf("c07.mux-blocked", "the multiplexer does not take the bundle")
+		}
+		// the fan-out now waits for the slow child (or has passed it); the others react
+		time.Sleep(2 * time.Millisecond)
+		for _, l := range cs.Leave {
+			close(kids[l].sender)
+		}
+		time.Sleep(2 * time.Millisecond)
+		close(kids[cs.Slow].gate)
+		for b := 1; b < cs.Bundles; b++ {
+			if !send(fmt.Sprintf("mux-%d", b), uint64(1+b)) {
+				c.Failf("c07.mux-blocked", "the multiplexer does not take bundle %d after %d children left during the previous hand-over", b, len(cs.Leave))
+			}
+		}
+		// a marker through the multiplexer: when the last staying child has it, everything before is through
+		var last *vfGatedMock
+		for i := cs.N - 1; i >= 0; i-- {
+			if !leaves[i] {
+				last = kids[i]
+				break
+			}
+		}
+		if !send("mux-marker", 99) {
+			c.Failf("c07.mux-blocked", "the multiplexer does not take the marker bundle")
+		}
+		deadline := time.Now().Add(10 * time.Second)
+		for last.count("mux-marker") == 0 && time.Now().Before(deadline) {
+			time.Sleep(100 * time.Microsecond)
+		}
+		if last.count("mux-marker") == 0 {
+			c.Failf("c07.mux-blocked", "a bundle sent after the hand-over never reaches the last registered agent (multiplexer stuck or dead)")
+		}
+		for i, k := range kids {
+			for b := 0; b < cs.Bundles; b++ {
+				p := fmt.Sprintf("mux-%d", b)
+				n := k.count(p)
+				switch {
+				case leaves[i] && n > 1:
+					c.Failf("c07.duplicate-delivery", "agent %d (which left during the first hand-over) received bundle %d %d times; children %d, slow child %d, leaving %v", i, b, n, cs.N, cs.Slow, cs.Leave)
+				case !leaves[i] && n != 1:
+					c.Failf("c07.mux-delivery-count", "agent %d stayed registered for the endpoint but received bundle %d %d times instead of once; children %d, slow child %d, leaving %v", i, b, n, cs.N, cs.Slow, cs.Leave)
+				}
+			}
+		}
+	})
+}
